@@ -10,10 +10,17 @@
    the JSON fallback make the Avro attempt raise one of the fallback classes -- Avro containers start with
    the magic "Obj\001", which is not JSON; the harness checks it on every byte string of every run.
 
-   The full-strength C14_fail_closed is FALSE of the faithful model of the code for exactly one case,
-   kept visible below: the current metadata file deleted while the pointer still names it
-   (C14_fail_closed_full, C14_fail_closed_full_refuted).  C14_fail_closed is the full statement minus
-   that case. *)
+   "The current snapshot" on the specification side is the one of the metadata file the POINTER names
+   ([spec_meta]: no recovery).  What the code serves is [served_meta]: the same file when it is there, otherwise
+   whatever the recovery scan settles on.  The two differ in exactly one case, and there the full-strength
+   statements are FALSE of the faithful model of the code (known finding
+   current-metadata-file-deleted-serves-previous-version): the current metadata file deleted while the pointer
+   still names it -- every API then returns an OLDER version's rows (C14_fail_closed_full_refuted), and on a table
+   with a single commit that older version is v0, so the broken table is reported as an EMPTY one
+   (C14_not_empty_full_refuted).  C14_fail_closed and C14_not_empty_partial are the full statements minus that
+   case; C14_never_partial speaks of the current version when the pointer's file is there, and
+   C14_never_partial_of_served_version / C14_not_empty_of_served_version say what still holds of whichever
+   version is served (also on a table without a usable pointer, which C10 makes a legitimate state). *)
 From Coq Require Import ZArith NArith List Bool String.
 Require Import DS.Gen.GenRead DS.Model.Read DS.Proofs.ReadProofs.
 Import ListNotations.
@@ -32,30 +39,51 @@ Theorem C14_fail_closed : forall (E : env) (st : store) (a : api) (o : opts) (r 
 Proof. exact fail_closed. Qed.
 Print Assumptions C14_fail_closed.
 
-(* All or nothing: an API that returns, returns exactly the answer of the current snapshot -- every
-   manifest of the list, every de-duplicated data file of every manifest, every row of every file
-   (row_count: the sum over exactly those files); a generator API that completes has yielded exactly
-   those rows. *)
+(* All or nothing: an API that returns, returns exactly the answer of the CURRENT snapshot -- the snapshot of the
+   metadata file the pointer names: every manifest of the list, every de-duplicated data file of every manifest,
+   every row of every file (row_count: the sum over exactly those files); a generator API that completes has yielded
+   exactly those rows.  (Hypothesis spec_meta = Some md: the pointer's file is there and parses; without it there is
+   no current snapshot to compare with -- see C14_not_empty_full_refuted for what the code does then.) *)
 Theorem C14_never_partial : forall (E : env) (st : store) (a : api) (o : opts) (ans : answer) (md : meta),
   json_not_avro E ->
   out (read_current E st a o) = Ok ans ->
   spec_meta E st = Some md ->
   spec_answer E st a md = Some ans
   /\ yielded (read_current E st a o) = match ans with ARows rows => rows | ACount _ => [] end.
-Proof. exact never_partial. Qed.
+Proof. exact never_partial_current. Qed.
 Print Assumptions C14_never_partial.
 
-(* A broken table is never reported as an empty one (nor as anything else): a dangling
-   current_snapshot_id, a missing manifest list, a missing manifest all raise, in every API. *)
-Theorem C14_not_empty : forall (E : env) (st : store) (a : api) (o : opts) (md : meta),
-  json_not_avro E -> spec_meta E st = Some md ->
-  ( (find_snap md = None /\ exists id, mcur md = Some id /\ id <> -1)
-    \/ (exists s, find_snap md = Some s /\ st (slist s) = Absent)
-    \/ (exists s b ms m, find_snap md = Some s /\ cur_bytes st (slist s) = Some b /\ list_content E b = Some ms
-                          /\ In (Some m) ms /\ st m = Absent) ) ->
+(* The same of whichever version the resolution SERVES (the pointer's file, or what the recovery scan settles on
+   when the pointer is missing / unparseable / names a missing file): no subset of THAT version's rows either.
+   This is not a statement about the current snapshot when the two differ. *)
+Theorem C14_never_partial_of_served_version : forall (E : env) (st : store) (a : api) (o : opts) (ans : answer) (md : meta),
+  json_not_avro E ->
+  out (read_current E st a o) = Ok ans ->
+  served_meta E st = Some md ->
+  spec_answer E st a md = Some ans
+  /\ yielded (read_current E st a o) = match ans with ARows rows => rows | ACount _ => [] end.
+Proof. exact never_partial. Qed.
+Print Assumptions C14_never_partial_of_served_version.
+
+(* A broken table is never reported as an empty one (nor as anything else) -- PARTIAL: under the extra hypothesis
+   that the pointer does not name a metadata file that is gone.  Then a dangling current_snapshot_id, a missing
+   manifest list, a missing manifest all raise, in every API.  The statement without that hypothesis is
+   C14_not_empty_full below, refuted. *)
+Theorem C14_not_empty_partial : forall (E : env) (st : store) (a : api) (o : opts),
+  json_not_avro E ->
+  (forall mk, hinted E st = Some mk -> st mk <> Absent) ->
+  broken_table E st ->
+  exists e, out (read_current E st a o) = Err e.
+Proof. exact not_empty_partial. Qed.
+Print Assumptions C14_not_empty_partial.
+
+(* Whichever version is served (see above), if ITS snapshot is broken -- dangling id, manifest list gone, a manifest
+   gone -- every API raises: also on a table without a usable pointer. *)
+Theorem C14_not_empty_of_served_version : forall (E : env) (st : store) (a : api) (o : opts) (md : meta),
+  json_not_avro E -> served_meta E st = Some md -> broken_snapshot E st md ->
   exists e, out (read_current E st a o) = Err e.
 Proof. exact not_empty. Qed.
-Print Assumptions C14_not_empty.
+Print Assumptions C14_not_empty_of_served_version.
 
 (* With verification on, a recorded checksum and changed bytes: the file's read raises CorruptDataError,
    every data-reading API raises, and the error IS CorruptDataError whenever the other data files read
@@ -71,6 +99,21 @@ Theorem C14_checksum : forall (E : env) (st : store) (a : api) (o : opts) (dfs :
       out (read_current E st a o) = Err ECorrupt).
 Proof. exact checksum_detects. Qed.
 Print Assumptions C14_checksum.
+
+(* "(the default)": the same for a call that passes no verify_checksums -- default_opts carries
+   GenRead.verify_default_on, regenerated from Table._resolve_verify_checksums on every run (no hypothesis on the
+   options; with the library's default switched off this theorem does not check). *)
+Theorem C14_checksum_by_default : forall (E : env) (st : store) (a : api) (dfs : list dfile) (df : dfile) (b orig : bytes),
+  reads_data a = true ->
+  fst (get_all_data_files E st) = Ok dfs -> In df dfs ->
+  dsum df = Some (sha E orig) -> st (dpath df) = Present b -> b <> orig ->
+  (sha E b = sha E orig -> b = orig) ->
+  fst (read_data E st (verify default_opts) df) = Err ECorrupt
+  /\ (exists e, out (read_current E st a default_opts) = Err e)
+  /\ ((forall df', In df' dfs -> df' <> df -> exists t, fst (read_data E st (verify default_opts) df') = Ok t) ->
+      out (read_current E st a default_opts) = Err ECorrupt).
+Proof. exact checksum_detects_by_default. Qed.
+Print Assumptions C14_checksum_by_default.
 
 (* Damage outside what the read touches changes nothing: two stores that agree on every key the call
    accessed give the same outcome and the same storage-call trace (any API, any options). *)
@@ -91,8 +134,10 @@ Print Assumptions C14_row_count_metadata_only.
 (* The outcome of a read depends only on the store at the time of the read, not on earlier reads through the
    same handle: whatever the handle read before (and whatever the store looked like then), the last read of a
    session is read_current on the store as it is now -- so C14_fail_closed / C14_checksum / C14_never_partial
-   apply to it unchanged.  (True by construction of the model, which gives a handle no read state; that the CODE
-   has none is what the same-handle correspondence and oracle observe on every run.) *)
+   apply to it unchanged -- whether the earlier reads returned or RAISED (a read that failed half-way through the
+   manifests leaves nothing behind).  (True by construction of the model, which gives a handle no read state; that
+   the CODE has none is what the same-handle correspondences and oracles observe on every run: read, damage, read
+   again; and damage, read (raises), read again with the damage in place and after it has cleared.) *)
 Theorem C14_history_independent : forall (E : env) (history : list (store * api * opts)) (st : store) (a : api) (o : opts) (d : result),
   last (read_session E (history ++ [(st, a, o)])) d = read_current E st a o.
 Proof. exact history_independent. Qed.
@@ -161,7 +206,7 @@ Print Assumptions C14_batched_guard_complete.
    always fails): with no transient fault anywhere, metadata that resolves, a complete answer on the
    specification side and recorded checksums that match, every API returns exactly that answer. *)
 Theorem C14_healthy_ok : forall (E : env) (st : store) (a : api) (o : opts) (md : meta) (ans : answer),
-  noflaky st -> spec_meta E st = Some md -> spec_answer E st a md = Some ans ->
+  noflaky st -> served_meta E st = Some md -> spec_answer E st a md = Some ans ->
   (forall s dfs, find_snap md = Some s -> spec_dfiles E st s = Some dfs -> sums_ok E st dfs) ->
   out (read_current E st a o) = Ok ans.
 Proof. exact healthy_ok. Qed.
@@ -204,6 +249,37 @@ Example C14_witness_serves_old_rows :
   map (fun a => out (read_current w_env w_store a {| verify := true |})) [Scan; ScanPar; Batches; IterRecords; RowCount]
   = [Ok (ARows [1; 2]); Ok (ARows [1; 2]); Ok (ARows [1; 2]); Ok (ARows [1; 2]); Ok (ACount 2)].
 Proof. vm_compute. reflexivity. Qed.
+
+(* ---------------------------------------------------------------------------------------------
+   "A broken table is never reported as an empty one", without the extra hypothesis of C14_not_empty_partial, and
+   why it is false of the code (the same known finding): create_table writes v0 (no snapshot), one commit writes v1
+   and the pointer; v1 deleted: the recovery scan finds v0 and every API reports an EMPTY table.
+   keys: 0 pointer, 4 = v0 metadata, 5 = v1 metadata (gone) *)
+Definition C14_not_empty_full : Prop := forall (E : env) (st : store) (a : api) (o : opts),
+  json_not_avro E -> broken_table E st ->
+  exists e, out (read_current E st a o) = Err e.
+
+Definition e_env : env :=
+  mk_env [] [(10%N, Some 5%N)] (Some 4%N) [(11%N, Some {| mcur := None; msnaps := [] |})] [] [] [] [] [].
+Definition e_store : store := store_of [(0, Present 10); (4, Present 11)]%N.
+
+Lemma e_env_wf : json_not_avro e_env.
+Proof. split; intros b x H; vm_compute in H; discriminate. Qed.
+
+Theorem C14_not_empty_full_refuted : ~ C14_not_empty_full.
+Proof.
+  intro H. destruct (H e_env e_store Scan {| verify := true |} e_env_wf) as [e He].
+  - left. exists 5%N. split; reflexivity.
+  - vm_compute in He. discriminate.
+Qed.
+Print Assumptions C14_not_empty_full_refuted.
+
+(* what the witness returns: an empty table, in every API *)
+Example C14_witness_reports_empty_table :
+  broken_table e_env e_store
+  /\ map (fun a => out (read_current e_env e_store a {| verify := true |})) [Scan; ScanPar; Batches; IterRecords; RowCount]
+     = [Ok (ARows []); Ok (ARows []); Ok (ARows []); Ok (ARows []); Ok (ACount 0)].
+Proof. split; [left; exists 5%N; split; reflexivity|vm_compute; reflexivity]. Qed.
 
 (* ---------------------------------------------------------------------------------------------
    Non-vacuity: a concrete table (pointer -> metadata 5 -> list 6 -> manifests 7, 9 -> data files 8, 12, 13;
@@ -264,4 +340,32 @@ Proof.
   - split; [reflexivity|]. simpl. intros md sn dfs df Hmd Hsn Hdfs Hsel.
     vm_compute in Hmd. inversion Hmd; subst md. vm_compute in Hsn. inversion Hsn; subst sn.
     vm_compute in Hdfs. inversion Hdfs; subst dfs. vm_compute in Hsel. inversion Hsel; subst df. reflexivity.
+Qed.
+
+(* ... and of the statements about the CURRENT version: the pointer's file is there and parses (hypothesis of
+   C14_never_partial), the hypotheses of C14_not_empty_partial hold of a table with a manifest / the manifest list
+   gone (which then raises), and a call without options verifies (C14_checksum_by_default). *)
+Definition x_md : meta := {| mcur := Some 2; msnaps := [{| sid := 1; slist := 3%N |}; {| sid := 2; slist := 6%N |}] |}.
+
+Example C14_nonvacuous_current :
+  spec_meta x_env x_store = Some x_md
+  /\ served_meta x_env x_store = Some x_md
+  /\ (forall mk, hinted x_env (x_with 9%N Absent) = Some mk -> x_with 9%N Absent mk <> Absent)
+  /\ broken_table x_env (x_with 9%N Absent)
+  /\ broken_table x_env (x_with 6%N Absent)
+  /\ x_out (x_with 6%N Absent) Scan true = Err EInconsistent
+  /\ verify default_opts = true
+  /\ out (read_current x_env (x_with 12%N (Present 30%N)) Scan default_opts) = Err ECorrupt
+  /\ out (read_current x_env x_store IterRecords default_opts) = Ok (ARows [1; 2; 3; 4; 5; 6]).
+Proof.
+  split; [vm_compute; reflexivity|]. split; [vm_compute; reflexivity|].
+  split; [intros mk H; vm_compute in H; inversion H; subst mk; vm_compute; discriminate|].
+  split.
+  { right. exists x_md. split; [vm_compute; reflexivity|]. right. right.
+    exists {| sid := 2; slist := 6%N |}, 16%N, [Some 7%N; None; Some 9%N], 9%N.
+    repeat split; try reflexivity. simpl; auto. }
+  split.
+  { right. exists x_md. split; [vm_compute; reflexivity|]. right. left.
+    exists {| sid := 2; slist := 6%N |}. split; reflexivity. }
+  repeat (split; [vm_compute; reflexivity|]). vm_compute. reflexivity.
 Qed.
